@@ -133,9 +133,14 @@ def run(ctx: Ctx):
         seq = [("traffic_light", "detection2d", False), ("traffic_light", "classification2d", False), ("autoware", "detection2d", True), ("traffic_light", "detection2d", True),
                ("autoware", "classification2d", False), ("traffic_light", "classification2d", True), ("autoware", "detection", True), ("autoware", "tracking", False),
                ("traffic_light", "tracking2d", False), ("autoware", "detection2d", False)]
-        for k_, (prefix, task, merge) in enumerate(seq):
+        # ... and whatever its OTHER options say (label policy in both spellings of the option, label counting): they are no part of the mapping
+        others = [{}, {"matching_label_policy": "allow_any"}, {"matching_label_policy": "ALLOW_UNKNOWN"}, {"matching_label_policy": "default", "count_label_number": False},
+                  {"allow_matching_unknown": True}]
+        seq = [(p_, t_, m_, o_) for (p_, t_, m_) in seq for o_ in others]
+        for k_, (prefix, task, merge, other) in enumerate(seq):
             names = ["car", "Bus", "TRUCK", "motorbike", "pedestrian.adult", "animal"] if prefix == "autoware" else ["green", "RED", "Yellow", "traffic_light", "unknown", "red_left"]
             d = {"evaluation_task": task, "target_labels": names, "label_prefix": prefix, "merge_similar_labels": merge, "center_distance_thresholds": [1.0], "iou_2d_thresholds": [0.5]}
+            d.update(other)
             is2d = task.endswith("2d")
             if not is2d:
                 d.update({"max_x_position": 100.0, "max_y_position": 100.0, "min_point_numbers": [0] * len(names), "plane_distance_thresholds": [2.0], "iou_3d_thresholds": [0.5]})
